@@ -117,6 +117,20 @@ chk("C15", "proof",
     "Coq proof over hand models; correspondence and fault enumeration at every callback invocation and write-back step",
     "DESIGN.md section 4 C15")
 
+chk("C10", "proof",
+    "Proved (Coq, closed under the global context) over Model/FixPass.v (which passes write back, per-file flag, 'Fixed:' lines, category via the "
+    "translated final_category and the Runner model) for every original content and every sequence of passes whatever they compute: bytes "
+    "changed implies announced; no pass registering a fix implies byte-identical; 'Fixed: f' exactly for files some pass wrote back; the error-"
+    "free run ends in fixed-at-least-one-file iff something is announced; the API's files_fixed is that list under either scheme. The converse "
+    "(announced implies bytes differ) is shown NOT to follow from the bookkeeping (witness) and is decided on the implementation by enumeration, "
+    "as are 'a file without a fix-capable failure stays identical' and the read-only clause (SHA-1/mtime of working and temp directories around 18 "
+    "non-fixing commands). Model tied to the code by feeding it the pass-level facts printed by the project's own fix-debug switches and "
+    "comparing final bytes, announcements and exit status, for both return-code schemes, single files and sets of 2-3 files.",
+    "Trusted: Coq kernel + vm_compute, the parser of the -x-fix-debug output, in-process CLI/API driver. Modelled rather than verified: what a "
+    "pass computes; OS effects.",
+    "Coq proof over hand model; correspondence from the fix-debug trace; enumeration for the converse and read-only clauses",
+    "DESIGN.md section 4 C10")
+
 NOT_YET = {}
 
 
